@@ -194,3 +194,18 @@ Lemma stale_latch_swallows_edge :
   let f := ev_run true ev_fresh [ESetTrig true; ECycle] in
   e_count s = 0 /\ e_count f = 1.
 Proof. vm_compute. auto. Qed.
+
+(* ---- periodic tasks ---- *)
+Lemma restart_recreates_periodic_state iv f now s : per_step false iv f now s ERestart = per_fresh.
+Proof. reflexivity. Qed.
+Lemma restarted_periodic_task_is_fresh iv f now s tr : per_run false iv (per_step false iv f now s ERestart) tr = per_run false iv per_fresh tr.
+Proof. now rewrite restart_recreates_periodic_state. Qed.
+(* keeping last_run across the clock rewind stalls the task: 20 ms of cycles run it twice on a fresh runtime, never after such a restart *)
+Lemma kept_last_run_is_not_fresh :
+  let iv := 10000000 in
+  let before := [(false, 10000000, ECycle); (false, 20000000, ECycle); (false, 30000000, ECycle)] in
+  let after := [(false, 10000000, ECycle); (false, 20000000, ECycle)] in
+  p_count (per_run true iv (per_step true iv false 0 (per_run true iv per_fresh before) ERestart) after) = 0 /\
+  p_count (per_run true iv per_fresh after) = 2 /\
+  p_count (per_run false iv (per_step false iv false 0 (per_run false iv per_fresh before) ERestart) after) = 2.
+Proof. vm_compute. repeat split; reflexivity. Qed.
